@@ -8,9 +8,9 @@ from .common import coq_json, coq_list, coq_opt, coq_str, typed, untyped
 
 INTS = [0, 1, -1, -2, 2, 5]
 IFLOATS = [1.0, -1.0, -2.0, 2.0, 0.0]
-FLOATS = [0.5, 2.5, -0.0]
+FLOATS = [0.5, 2.5, -0.0, 5e-10, 1.0000000005]   # incl. values within 1e-9 of 0 and of 1 (math.isclose default abs_tol / rel_tol)
 BOOLS = [True, False]
-STRS = ["x", "abc", "1", "", "/da", "a/"]
+STRS = ["x", "abc", "1", "", "/da", "a/", "none", "True"]   # incl. strings that LOOK like the tokens of null / a bool
 LISTS = [[1, 2], [1.0, 2], [], ["a"], [True], [1]]
 # lists holding mappings that hold lists / mappings, and nested lists (valid JSON values; once unhashable in the index)
 DEEP_LISTS = [[{"b": [1]}], [{"x": [1, 2]}, 3], [[1, [2]]], [{"b": {"c": [1]}}], [{"b": [1]}, {"b": [1.0]}],
@@ -116,7 +116,7 @@ def rand_opexpr(rng):
     if form < 0.5:
         return "$near", [x]
     if form < 0.75:
-        return "$near", [x, rng.choice([1e-9, 0.5, 0.0])]
+        return "$near", [x, rng.choice([1e-9, 0.5, 0.0, 1e-12, 0.1])]
     return "$near", [x, rng.choice([1e-9, 0.1]), rng.choice([0.0, 0.6])]
 
 
@@ -186,7 +186,7 @@ def rand_targeted(rng, pairs):
     if isinstance(v, (int, float)) and not isinstance(v, bool):
         if r < 0.85:
             return {key: {rng.choice(["$gt", "$gte", "$lt", "$lte"]): v + rng.choice([0, 0, 1, -1, 0.5])}}
-        return {key: {"$near": [v + rng.choice([0, 1e-12, 0.4]), rng.choice([1e-9, 0.5])]}}
+        return {key: {"$near": [v + rng.choice([0, 1e-12, 0.4, -5e-10]), rng.choice([1e-9, 0.5, 1e-12, 0.1])]}}
     return {key: {"$eq": v}}
 
 
